@@ -51,6 +51,20 @@ def check(run, prog, tier):
     rule_B3(run, prog)
     rule_B4(run, prog)
     rule_B5(run, prog)
+    run.rule("C04-B6", "a basis-managed property stays one in every subclass (no class body rebinds its name to a plain value)",
+             minimum=20)
+    rule_B6(run, prog)
+    run.rule("C04-B8", "a transform() that writes the transformed values back into existing storage first makes the storage able "
+                       "to hold them (whole numbers, real storage under a complex transformation matrix)", minimum=10)
+    rule_B8(run, prog)
+    run.rule("C04-B9", "the system-bath operators (plain arrays given in the site basis) are combined with basis-managed data only "
+                       "where the basis in force is established", minimum=6)
+    rule_B9(run, prog)
+    run.rule("C04-B7", "a state handed out by at() of an evolution owns its data (it is basis-managed on its own)", minimum=2)
+    from . import handout
+    for q, ctor in (("quantarhei.qm.propagators.dmevolution.DensityMatrixEvolution", "DensityMatrix"),
+                    ("quantarhei.qm.propagators.dmevolution.ReducedDensityMatrixEvolution", "ReducedDensityMatrix")):
+        handout.check_owned(run, "C04-B7", prog, prog.cls(q), ctor, "tr(A rho) then differs inside and outside the context")
 
 
 # ----------------------------------------------------------------------
@@ -157,10 +171,36 @@ def rule_B1(run, prog):
     k2, env = pat.find(tx, "$SS = self.manager.basis_transformations.pop()", env)
     ob("eigenbasis_of.__exit__", len(popt) == 1 and k2 is not None, "pop-transformations",
        "__exit__ must pop basis_transformations exactly once, unconditionally", ext)
-    ob("eigenbasis_of.__exit__", not [n for n in walk_no_nested(ext.node)
-                                      if isinstance(n, (ast.Return, ast.Raise, ast.Try))],
-       "no-early-exit", "__exit__ must not return a value (would swallow exceptions), raise, or "
-                        "wrap the restoration in try/except", ext)
+    # Nothing may cut the restoration short.  A transform() of a registered object can raise (an object created inside
+    # the context that holds no data yet): the only try allowed wraps exactly that call, its handler only records the
+    # exception, and the only raise re-raises the recorded exception as the last statement of __exit__ - after the
+    # other objects, the registry, the basis operator and the flag are back.
+    tries = [n for n in walk_no_nested(ext.node) if isinstance(n, ast.Try)]
+    raises = [n for n in walk_no_nested(ext.node) if isinstance(n, ast.Raise)]
+    rets = [n for n in walk_no_nested(ext.node) if isinstance(n, ast.Return)]
+    recorded = None
+    try_ok = True
+    for tr in tries:
+        body_ok = len(tr.body) == 1 and isinstance(tr.body[0], ast.Expr) and isinstance(tr.body[0].value, ast.Call) \
+            and isinstance(tr.body[0].value.func, ast.Attribute) and tr.body[0].value.func.attr == "transform"
+        h_ok = len(tr.handlers) == 1 and tr.handlers[0].name is not None and not tr.orelse and not tr.finalbody
+        if h_ok:
+            hb = tr.handlers[0].body
+            names = [norm(t_) for x in hb for n in ast.walk(x) if isinstance(n, ast.Assign) for t_ in n.targets
+                     if norm(n.value) == tr.handlers[0].name]
+            esc = [n for x in hb for n in ast.walk(x) if isinstance(n, (ast.Raise, ast.Return, ast.Break, ast.Continue))]
+            h_ok = len(set(names)) == 1 and not esc
+            if h_ok:
+                recorded = names[0]
+        try_ok = try_ok and body_ok and h_ok
+    last = tl[-1] if tl else None
+    reraise_ok = (not tries and not raises) or (
+        recorded is not None and len(raises) == 1 and isinstance(last, ast.If) and norm(last.test) == "%s is not None" % recorded
+        and [norm(x) for x in last.body] == ["raise %s" % recorded] and not last.orelse)
+    ob("eigenbasis_of.__exit__", not rets and try_ok and reraise_ok,
+       "no-early-exit", "__exit__ must not return a value (would swallow exceptions) or leave before the restoration is "
+                        "complete: a try may only wrap the transform() of one registered object and record its exception, "
+                        "which is re-raised by the last statement of __exit__", ext)
     # the new top of the stack (after the pop)
     knb = None
     for form in (["$BSS = len(self.manager.basis_stack)", "$NB = self.manager.basis_stack[$BSS - 1]"],
@@ -229,8 +269,13 @@ def rule_B1(run, prog):
         e["OP"] = lp.target.id
         lb = [norm(s_) for s_ in lp.body]
         c1 = pat.find(lb, "$OP.set_current_basis($NB)", e)[0] is not None
+        def _tr_stmt(b_):
+            # the transform statement itself, or the try that wraps exactly it (handler checked above)
+            if isinstance(b_, ast.Try) and len(b_.body) == 1:
+                b_ = b_.body[0]
+            return norm(b_)
         c2 = any(isinstance(s_, ast.If) and pat.match("not $OP.is_basis_protected", norm(s_.test), e) is not None
-                 and len(s_.body) == 1 and pat.match("$OP.transform($S1, inv=$SS)", norm(s_.body[0]), e) is not None
+                 and len(s_.body) == 1 and pat.match("$OP.transform($S1, inv=$SS)", _tr_stmt(s_.body[0]), e) is not None
                  and not s_.orelse for s_ in lp.body)
         c3 = any(isinstance(s_, ast.If) and pat.match("$NB != 0", norm(s_.test), e) is not None
                  and any(isinstance(n, ast.Call) and pat.match("self.manager.register_with_basis($NB, $OP)", norm(n), e)
@@ -244,6 +289,10 @@ def rule_B1(run, prog):
        "__exit__ must, for every registered object: transform it back with (S1, inv=SS) unless "
        "protected, re-tag it with the new top basis id unconditionally, and re-register it one "
        "level up when that level is not 0 (%s)" % detail, ext)
+    ob("eigenbasis_of.__exit__", bool(tries) and try_ok and recorded is not None, "failing-transform-contained",
+       "a transform() that raises for one registered object (one created inside the context without data) leaves __exit__ "
+       "at once: the objects after it stay in the basis that is left, the registry and the basis operator are not "
+       "restored and _in_eigenbasis_of_context stays set", ext)
     flag = [s_ for s_ in tl if isinstance(s_, ast.If) and norm(s_.test) == "len(self.manager.basis_stack) == 1"
             and [norm(x) for x in s_.body] == ["self.manager._in_eigenbasis_of_context = False"] and not s_.orelse]
     ob("eigenbasis_of.__exit__", len(flag) == 1, "flag-cleared",
@@ -402,6 +451,27 @@ def rule_B3(run, prog):
                                    % (f.short, var, norm(node.value)), loc=f.loc(node), sample={"function": f.short})
     if ncopies < 3:
         raise AnalysisError("C04-B3: only %d operator copies found in quantarhei.qm (3 confirmed: the apply methods)" % ncopies)
+    # the public copy methods every basis-managed class inherits from Saveable: the object handed out is "an object
+    # created inside" the context and must be back in its original representation afterwards
+    sv = prog.cls("quantarhei.core.saveable.Saveable")
+    for nme in ("copy", "deepcopy"):
+        f = sv.methods[nme]
+        prog.consulted.add(f.relpath)
+        made = [n for n in walk_no_nested(f.node) if isinstance(n, ast.Call) and norm(n.func) in ("copy.copy", "copy.deepcopy")]
+        if not made:
+            raise AnalysisError("Saveable.%s no longer copies with the copy module" % nme)
+        names = {n.targets[0].id for n in walk_no_nested(f.node) if isinstance(n, ast.Assign) and len(n.targets) == 1
+                 and isinstance(n.targets[0], ast.Name) and n.value in made}
+        reg = any(isinstance(n, ast.Call) and call_name(n) == "register_with_basis" and len(n.args) == 2
+                  and isinstance(n.args[1], ast.Name) and n.args[1].id in names for n in walk_no_nested(f.node))
+        rets = [n for n in walk_no_nested(f.node) if isinstance(n, ast.Return)]
+        ok = reg and all(isinstance(r_.value, ast.Name) and r_.value.id in names for r_ in rets)
+        run.obligation(rid, "Saveable.%s" % nme, ok, key="public-copy-registered",
+                       message="Saveable.%s() hands out %s of a basis-managed object without registering it with the basis it is "
+                               "labelled with: made inside a context, the copy stays in that basis when the context is left and "
+                               "reading its data afterwards raises 'Basis of the object is not on stack' (or silently uses an "
+                               "unrelated basis in a later context)" % (nme, norm(made[0])), loc=f.loc(made[0]),
+                       sample={"method": nme})
 
 
 # ----------------------------------------------------------------------
@@ -433,6 +503,10 @@ def _run_transform(prog, cls_qual, attrs, extra_oracle, with_inv):
                 return S
             raise AnalysisError("inverse of something other than the transformation matrix in %s"
                                 % func.qualname)
+        if name.endswith("BasisManaged._storage_for_transform"):
+            # same values in an element type that can hold the result (its body is the obligation 'result-type' of
+            # C04-B8); for the index algebra the array is unchanged
+            return args[0]
         return NotImplemented
     selfo = Obj("self", cls=cls, attrs=dict(attrs), alias={"data": "_data"})
     it = Interp(prog, lenient=False, branch_oracle=_oracle(extra_oracle), call_hook=hook)
@@ -536,12 +610,14 @@ def rule_B4(run, prog):
         _tensor_law(run, "TDRedfieldRelaxationTensor.transform[tensor]", so.get("_data"), 1, f,
                     "covariance-" + tag)
         so, f = _run_transform(prog, LS + "tdredfieldtensor.TDRedfieldRelaxationTensor",
-                               {"Km": Array.opaque("K", 3), "Lm": Array.opaque("L", 4),
-                                "Ld": Array.opaque("D", 4)},
+                               {"_Km": Array.opaque("K", 3), "_Lm": Array.opaque("L", 4),
+                                "_Ld": Array.opaque("D", 4)},
                                {"not self._data_initialized": True}, with_inv)
-        _op_law(run, "TDRedfieldRelaxationTensor.transform[operators]", so.get("Km"), "K", 1, f, "Km-" + tag)
-        _op_law(run, "TDRedfieldRelaxationTensor.transform[operators]", so.get("Lm"), "L", 2, f, "Lm-" + tag)
-        _op_law(run, "TDRedfieldRelaxationTensor.transform[operators]", so.get("Ld"), "D", 2, f, "Ld-" + tag)
+        # transform() works on the storage of the managed operators (reading them through the properties would ask
+        # for this very transformation)
+        _op_law(run, "TDRedfieldRelaxationTensor.transform[operators]", so.get("_Km"), "K", 1, f, "Km-" + tag)
+        _op_law(run, "TDRedfieldRelaxationTensor.transform[operators]", so.get("_Lm"), "L", 2, f, "Lm-" + tag)
+        _op_law(run, "TDRedfieldRelaxationTensor.transform[operators]", so.get("_Ld"), "D", 2, f, "Ld-" + tag)
         so, f = _run_transform(prog, LS + "redfieldtensor.RedfieldRelaxationTensor",
                                {"_Km": Array.opaque("K", 3), "_Lm": Array.opaque("L", 3),
                                 "_Ld": Array.opaque("D", 3)}, {"self.as_operators": True}, with_inv)
@@ -650,3 +726,159 @@ def rule_B5(run, prog):
     run.obligation(rid, "Manager.transform_to_current_basis", ok, key="composition-order",
                    message="stacked transformations must be composed outer-first: SS = ZZ.SS with ZZ "
                            "walking down the stack from the top", loc=f.loc())
+
+
+MANAGED_FACTORIES = ("BasisManagedRealArray", "BasisManagedComplexArray", "basis_managed_array_property",
+                     "ManagedRealArray", "ManagedComplexArray", "managed_array_property")
+
+
+def rule_B6(run, prog):
+    """'Every basis-managed object is presented in that same basis': an attribute is brought into the current basis by
+    the getter of its managed property.  A subclass whose body binds the same name to anything else (`Km = None`)
+    replaces the property for all its instances: the attribute is then a plain one, is never transformed on access,
+    and the object mixes bases with everything it is combined with inside a context."""
+    rid = "C04-B6"
+
+    def managed(c):
+        return {nme for nme, val in c.attrs.items() if isinstance(val, ast.Call) and norm(val.func).split(".")[-1] in MANAGED_FACTORIES}
+    n = 0
+    for c in prog.all_classes():
+        inherited = {}
+        for b in prog.mro(c)[1:]:
+            if b is None:
+                continue
+            for nme in managed(b):
+                inherited.setdefault(nme, b)
+        if not inherited:
+            continue
+        n += 1
+        prog.consulted.add(c.module.relpath)
+        own = managed(c)
+        shadow = sorted(nme for nme in c.attrs if nme in inherited and nme not in own)
+        # instance-level replacement through __dict__ / object.__setattr__ would do the same
+        run.obligation(rid, c.name, not shadow, key="managed-not-shadowed",
+                       message="class %s rebinds %s in its body; %s defines %s as basis-managed propert%s: for %s objects the "
+                               "attribute is a plain one that is never brought into the basis of a context" % (
+                                   c.name, shadow, inherited[shadow[0]].name if shadow else "", shadow, "y" if len(shadow) == 1 else "ies", c.name),
+                       loc="%s:%d" % (c.module.relpath, (c.attrs[shadow[0]].lineno if shadow else c.node.lineno)),
+                       sample={"class": c.name, "inherited_managed": sorted(inherited)})
+    if n < 20:
+        raise AnalysisError("only %d classes inherit a basis-managed property (20 confirmed)" % n)
+
+
+def rule_B8(run, prog):
+    """'Every basis-managed object is presented in that basis ... and is back in its original representation afterwards':
+    the transformed values are S^-1.A.S with the eigenvector matrix S of the context's operator, real numbers in general
+    and complex ones for a complex Hermitian operator.  A transform() that assigns them to elements of the existing
+    storage (self._X[...] = ...) keeps the element type the storage happened to have: whole numbers truncate, real
+    storage drops the imaginary parts, and the transformation back cannot recover them.  Every such in-place store is
+    therefore dominated by a statement that rebinds the storage to one of a sufficient type, computed from the
+    transformation matrix (self._X = self._storage_for_transform(self._X, SS), or an astype(result_type(.., SS ..))).
+    A transform() that rebinds the storage to the product itself has nothing to show."""
+    from ..loader import parents_map
+    rid = "C04-B8"
+    n = 0
+    for c in prog.subclasses_of("BasisManaged"):
+        f = c.methods.get("transform")
+        if f is None or c.module.name.endswith("_test"):
+            continue
+        prog.consulted.add(f.relpath)
+        ss = f.node.args.args[1].arg
+        pm = parents_map(f.node)
+        first = {}
+        for st in walk_no_nested(f.node):
+            if isinstance(st, ast.Assign):
+                for t_ in st.targets:
+                    b = t_
+                    while isinstance(b, ast.Subscript):
+                        b = b.value
+                    if b is not t_ and norm(b).startswith("self."):
+                        first.setdefault(norm(b), []).append(st)
+
+        def promotes(st, target):
+            if not (isinstance(st, ast.Assign) and [norm(t_) for t_ in st.targets] == [target] and isinstance(st.value, ast.Call)):
+                return False
+            v = st.value
+            if isinstance(v.func, ast.Attribute) and v.func.attr == "_storage_for_transform":
+                return [norm(a) for a in v.args] == [target, ss]
+            if isinstance(v.func, ast.Attribute) and v.func.attr == "astype" and norm(v.func.value) == target:
+                return any(isinstance(x, ast.Call) and norm(x.func).endswith("result_type") and any(ss in norm(a) for a in x.args)
+                           for x in ast.walk(v))
+            return False
+        for target, stores in sorted(first.items()):
+            for st in stores:
+                n += 1
+                dom = False
+                node = st
+                while node is not None and node is not f.node and not dom:
+                    p_ = pm.get(node)
+                    for fld in ("body", "orelse", "finalbody"):
+                        blk = getattr(p_, fld, None)
+                        if isinstance(blk, list) and node in blk:
+                            if any(promotes(prev, target) for prev in blk[:blk.index(node)]):
+                                dom = True
+                    node = p_
+                run.obligation(rid, "%s.transform" % c.name, dom, key="storage-holds-result:%s:%s" % (target, norm(st.targets[0])[:30]),
+                               message="%s.transform writes the transformed values into elements of %s (%s) without first making the "
+                                       "storage able to hold them: storage of whole numbers truncates them and real storage drops the "
+                                       "imaginary parts of S^-1.A.S for the eigenvectors of a complex Hermitian operator; the object is "
+                                       "still wrong after the context" % (c.name, target, norm(st)[:60]), loc=f.loc(st),
+                               sample={"store": norm(st)[:80]})
+    if n < 10:
+        raise AnalysisError("only %d in-place stores in transform() methods found (10 confirmed)" % n)
+    # the helper itself: result type from the storage, the matrix and float
+    h = prog.func(MGR + "BasisManaged._storage_for_transform")
+    prog.consulted.add(h.relpath)
+    a_data, a_ss = h.node.args.args[1].arg, h.node.args.args[2].arg
+    rt = [x for x in ast.walk(h.node) if isinstance(x, ast.Call) and norm(x.func).endswith("result_type")]
+    ok = len(rt) == 1 and {"%s.dtype" % a_data, "%s.dtype" % a_ss} <= {norm(a) for a in rt[0].args} and \
+        any(norm(a) in ("numpy.float64", "float", "REAL") for a in rt[0].args)
+    conv = [x for x in ast.walk(h.node) if isinstance(x, ast.Return) and isinstance(x.value, ast.Call)
+            and isinstance(x.value.func, ast.Attribute) and x.value.func.attr == "astype"]
+    run.obligation(rid, "BasisManaged._storage_for_transform", ok and bool(conv), key="result-type",
+                   message="_storage_for_transform must return the storage in numpy.result_type(storage, matrix, float): anything "
+                           "narrower truncates or drops imaginary parts in the transform() methods that write in place",
+                   loc=h.loc(h.node))
+
+
+def rule_B9(run, prog):
+    """'Basis-independent results (the action of a tensor on a state, propagated dynamics) are the same as outside':
+    SystemBathInteraction.KK holds the system operators as plain arrays in the basis they were given in (the site basis);
+    nothing transforms them when a context opens.  A function that takes their values and combines them with
+    basis-managed data (the Hamiltonian's data, which are in the basis of the context) therefore has to establish which
+    basis is in force - look at the manager's current basis / the accumulated transformations, or at the basis label of
+    the Hamiltonian - and bring the operators there (or refuse).  Reads of the shape alone are not values."""
+    from ..loader import parents_map
+    rid = "C04-B9"
+    n = 0
+    for f in prog.all_functions():
+        mn = f.module.name
+        if not mn.startswith("quantarhei.qm.") or ".tests" in mn or mn.endswith("systembathinteraction"):
+            continue
+        pm = parents_map(f.node)
+        reads = []
+        for x in walk_no_nested(f.node):
+            if isinstance(x, ast.Attribute) and x.attr == "KK" and isinstance(x.ctx, ast.Load) \
+                    and ("sbi" in norm(x.value).lower() or "SystemBathInteraction" in norm(x.value)):
+                p_ = pm.get(x)
+                if isinstance(p_, ast.Attribute) and p_.attr == "shape":
+                    continue
+                reads.append(x)
+        if not reads:
+            continue
+        if f.short == "ElectronicLindbladForm.__init__":
+            # re-expresses the operator list of the electronic system in the vibronic state space; the values meet
+            # managed data only in LindbladForm._implementation, which has its own obligation
+            continue
+        n += 1
+        prog.consulted.add(f.relpath)
+        est = [y for y in ast.walk(f.node) if isinstance(y, ast.Attribute) and y.attr in ("get_current_basis", "basis_transformations",
+                                                                                           "basis_stack", "_in_eigenbasis_of_context")]
+        run.obligation(rid, f.short, bool(est), key="site-basis-operators",
+                       message="%s takes the values of %s - plain arrays in the site basis - and combines them with basis-managed data "
+                               "without establishing the basis in force: called inside eigenbasis_of (with the Hamiltonian not "
+                               "basis-protected) the Hamiltonian is already diagonal there, the operators are used as if they were "
+                               "in that basis, and the tensor / rates / dynamics differ from those obtained outside"
+                               % (f.short, norm(reads[0])), loc=f.loc(reads[0]), sample={"reads": [norm(r_) for r_ in reads][:4]})
+    if n < 6:
+        raise AnalysisError("only %d functions take the values of the system-bath operators (6 confirmed)" % n)
